@@ -31,6 +31,9 @@ const HAND: &[&str] = &[
     "- &m {k: v}\n- {<<: *m}\n- {<<: [*m, {k: w, j: u}]}\n",
     "d: {<<: {? [1, 2] : s}, ? [1, 2] : t}\n",
     "<<: {a: 1}\nb: 2\n",
+    "base: &B {\"<<\": {x: 1}, y: 2}\nt: {<<: *B, z: 3}\n",
+    "t: {<<: {'<<': 5, y: 2}, z: 3}\n",
+    "t: {<<: [{a: 1}, {!!str <<: {x: 1}}], z: 3}\n",
 ];
 
 fn same_key(a: &Node, b: &Node) -> bool {
@@ -152,6 +155,28 @@ fn precedence_family() -> Vec<Node> {
             }
         }
     }
+    // merge SOURCES that contain a quoted or tagged `<<` key (an ordinary key there too), supplied inline, through an
+    // alias and as a sequence element, with a mapping and with a scalar under it
+    for sty in [Sty::Double, Sty::Single] {
+        for (tag, under_map) in [(None, true), (None, false), (Some("!!str".to_string()), true)] {
+            let qk = Node::Scalar { text: "<<".into(), sty: if tag.is_some() { Sty::Plain } else { sty }, tag: tag.clone(), anchor: None };
+            let under = if under_map { Node::Map { entries: vec![(p("x"), p("1"))], flow: true, anchor: None } } else { p("scalar") };
+            let source = |anchor: Option<String>| Node::Map { entries: vec![(qk.clone(), under.clone()), (p("y"), p("2"))], flow: true, anchor };
+            for how in 0..3 {
+                let mut top = Vec::new();
+                let v = match how {
+                    0 => source(None),
+                    1 => {
+                        top.push((p("base"), source(Some("B".into()))));
+                        Node::Alias("B".into())
+                    }
+                    _ => seq(vec![src(0, false), source(None)]),
+                };
+                top.push((p("t"), Node::Map { entries: vec![(p("<<"), v), (p("z"), p("3"))], flow: false, anchor: None }));
+                out.push(Node::Map { entries: top, flow: false, anchor: None });
+            }
+        }
+    }
     // a merge source that itself merges a nested sequence
     let inner = Node::Map { entries: vec![(p("<<"), seq(vec![seq(vec![src(0, false), src(1, false)]), src(2, false)])), (p("mid"), p("m"))], flow: true, anchor: None };
     out.push(Node::Map { entries: vec![(p("d"), Node::Map { entries: vec![(p("<<"), inner), (p("top"), p("t"))], flow: false, anchor: None })], flow: false, anchor: None });
@@ -186,7 +211,7 @@ pub fn run(ctx: &mut Ctx) {
     docs.extend(precedence_family().into_iter().map(|n| (docgen::render_doc(&n), Some(n))));
     let mut tries = 0;
     let want = if quick { 350 } else { 4000 };
-    while docs.len() < want + HAND.len() + 45 && tries < want * 20 {
+    while docs.len() < want + HAND.len() + 63 && tries < want * 20 {
         tries += 1;
         let mut cfg = GenCfg::default_for(if quick { 14 } else { 28 });
         cfg.merges = true;
